@@ -19,16 +19,16 @@ Proof.
   induction rs as [|[k v] t IH]; simpl.
   - destruct (Z.eqb r2 r); reflexivity.
   - destruct (Z.eqb_spec k r) as [->|Hkr].
-    + rewrite IH. destruct (Z.eqb_spec r2 r) as [->|Hne]; [reflexivity|].
+    + rewrite IH. destruct (Z.eqb_spec r2 r) as [E|Hne]; [reflexivity|].
       destruct (Z.eqb_spec r r2); [congruence|reflexivity].
-    + simpl. rewrite IH. destruct (Z.eqb_spec k r2) as [->|Hk]; [|reflexivity].
+    + simpl. rewrite IH. destruct (Z.eqb_spec k r2) as [E|Hk]; [|reflexivity].
       destruct (Z.eqb_spec r2 r); [congruence|reflexivity].
 Qed.
 
 Lemma reg_get_set {A} (rs : list (Z * A)) (r : Z) (v : A) (r2 : Z) : reg_get (reg_set rs r v) r2 = if Z.eqb r2 r then Some v else reg_get rs r2.
 Proof.
   unfold reg_set. simpl. rewrite reg_get_del.
-  destruct (Z.eqb_spec r r2) as [->|Hne]; [now rewrite Z.eqb_refl|]. destruct (Z.eqb_spec r2 r); [congruence|reflexivity].
+  destruct (Z.eqb_spec r r2) as [E|Hne]; [rewrite E; now rewrite Z.eqb_refl|]. destruct (Z.eqb_spec r2 r); [congruence|reflexivity].
 Qed.
 
 Lemma st_adm_set_un s u x : st_adm s -> un_adm x -> st_adm {| sks := sks s; uns := reg_set (uns s) u x |}.
